@@ -173,6 +173,10 @@ def run(ctx):
             n = rng.randint(1, N)
             mask = None if n == N else gen.rmask(rng, N, n)[0]
             do(ctx, 'tr_corr', [be, gen.rmap(rng, ctx.model, n), mask, gen.rplist(rng, N, L)], nontrivial=('long', be, L))
+    for L in gen.LONG2:
+        for be in backends:
+            N = rng.randint(1, 3)
+            do(ctx, 'tr_corr', [be, gen.rmap(rng, ctx.model, N), None, gen.rplist(rng, N, L)], nontrivial=('long2', be, L))
     # SPARSE generators on wide registers, unmasked, either sign (a rotation about one or two qubits of many)
     for N in gen.BIG:
         for be in backends:
